@@ -72,6 +72,16 @@ ATOMS = [
     ('12345678901234567890', 'num-big-int'),
     ('-12345678901234567890', 'num-neg-big-int'),
     ('1e400', 'num-exp-overflow'),
+    ('0e0', 'num-zero-exp'),
+    ('0E5', 'num-zero-exp-upper'),
+    ('-0e-3', 'num-neg-zero-exp'),
+    ('0.0e+1', 'num-zero-frac-exp'),
+    ('10', 'num-int-trailing-zero'),
+    ('"\'"', 'str-only-apostrophe'),
+    ('"\'tis"', 'str-leading-apostrophe'),
+    ('"dogs\'"', 'str-trailing-apostrophe'),
+    ('" a "', 'str-blanks-at-ends'),
+    ('"\\"a\\""', 'str-escaped-dquotes-at-ends'),
     ('true', 'true'),
     ('false', 'false'),
     ('null', 'null'),
@@ -81,6 +91,7 @@ KEYS = [
     ('""', 'key-empty'),
     ('"\\u0061"', 'key-escape-u-ascii'),      # decodes to the same key as "a"
     ('"\\/"', 'key-escape-solidus'),
+    ('"\'k\'"', 'key-apostrophes-at-ends'),
 ]
 PLAIN = set(['str-plain', 'num-int', 'num-zero', 'true', 'false', 'null',
              'str-empty'])
